@@ -25,6 +25,7 @@ RULE = (
 )
 ASSUMPTIONS = [
     "floating-point monotonicity/continuity/end-point tolerance 64*ulp(scale)*(1+slope) in the working dtype (x16 in the inverse direction, and at least 1e-8*scale (float64) / 1e-4*scale (float32) for the cubic inverse: closed-form roots with a declared window eps=1e-5); containment in [bottom,top] and identity outside the tails are exact",
+    "pattern 'spike' in float32: only the exact clauses (no exception, finite, containment, identity in the tails) are judged; float64: everything",
     "strict increase is demanded for points >= 1e-3*width apart whenever the smallest reported slope times the distance exceeds 256 ulp(scale)",
     "knot positions come from a reference softmax/min-width formula and are only used to place grid points",
 ]
@@ -36,7 +37,7 @@ DT = {"float64": torch.float64, "float32": torch.float32}
 
 
 def bounds(tier, seed):
-    return {"families": list(FAMILIES), "bins": [1, 2, 3, 4, 5, 8] if tier == "quick" else [1, 2, 3, 4, 5, 6, 8, 12, 16], "boxes": list(BOXES) + ["tails %g" % t for t in TAILS], "patterns": ["zero", "pat1", "pat3", "pat8"], "pattern_phase": seed % 3,
+    return {"families": list(FAMILIES), "bins": [1, 2, 3, 4, 5, 8] if tier == "quick" else [1, 2, 3, 4, 5, 6, 8, 12, 16], "boxes": list(BOXES) + ["tails %g" % t for t in TAILS], "patterns": ["zero", "pat1", "pat3", "pat8", "spike (pat1 with one unnormalised height / derivative = 100)"], "pattern_phase": seed % 3,
             "points_per_bin": 8 if tier == "quick" else 24}
 
 
@@ -45,8 +46,10 @@ def params_for(family, K, tails, pname, seed, N, dtype):
         if pname == "zero":
             v = torch.zeros(n, dtype=torch.float64)
         else:
-            scale = {"pat1": 1.0, "pat3": 3.0, "pat8": 8.0}[pname]
+            scale = {"pat1": 1.0, "pat3": 3.0, "pat8": 8.0, "spike": 1.0}[pname]
             v = pat_values(n, k + 2 * (seed % 3), scale)
+            if pname == "spike" and k >= 1 and n > 0:
+                v[0] = 100.0  # one extreme (legal) unnormalised height / derivative among moderate ones: exp() of it leaves float32
         return v.to(dtype)[None, :].expand(N, n).contiguous()
 
     if family == "linear":
@@ -93,7 +96,7 @@ def make_grid(family, K, box, tb, pname, seed, dtype, inverse, per_bin, mins=Non
     if family == "linear":
         xk = l + (r - l) * np.arange(K + 1) / K
     else:
-        uw = np.zeros(K) if pname == "zero" else pat_values(K, 0 + 2 * (seed % 3), {"pat1": 1.0, "pat3": 3.0, "pat8": 8.0}[pname]).numpy()
+        uw = np.zeros(K) if pname == "zero" else pat_values(K, 0 + 2 * (seed % 3), {"pat1": 1.0, "pat3": 3.0, "pat8": 8.0, "spike": 1.0}[pname]).numpy()
         xk = ref_knots_from_widths(uw, l, r, min_w=(mins[0] if mins else 1e-3))
     knots = xk
     if inverse:
@@ -222,6 +225,10 @@ def check_case(case):
         for s_, i_ in ((-1, i_lo), (1, i_hi)):
             if abs(yv[i_] - gx[i_]) > 64 * u * (1 + slope[i_]):
                 V("tail", "not continuous at the tail bound", "%s(%r) = %r at the tail junction" % (direction, gx[i_], yv[i_]))
+    if pname == "spike" and dtype == torch.float32:
+        # an extreme parameter in single precision: accuracy is only claimed for moderate magnitudes (C19), so only the exact
+        # clauses are judged here -- no exception, finite values, containment, identity in the tails
+        out = [o for o in out if o[1].startswith("raises") or o[1] in ("non-finite", "output leaves the interval", "not the identity outside the tail bound")]
     return out, {"n": len(g), "knots": len(knots) - 2 if len(knots) > 2 else 0}
 
 
@@ -243,7 +250,7 @@ def cases_of(unit):
 
 
 def _cases_of(fam, K, boxname, tier, seed):
-    pats = ["zero", "pat1", "pat3"] + ([] if fam == "linear" else ["pat8"])
+    pats = ["zero", "pat1", "pat3"] + ([] if fam == "linear" else ["pat8", "spike"])
     tbs = [None] if boxname != "tails" else (list(TAILS) if tier == "quick" else list(TAILS) + [16.0, 100.0, 1e4])
     for tb in tbs:
         if tb is not None and fam == "quadratic" and K < 2:
@@ -254,7 +261,7 @@ def _cases_of(fam, K, boxname, tier, seed):
                     continue  # single precision is only claimed for moderate magnitudes (C19)
                 for inverse in (False, True):
                     for mins in (("default",) if fam == "linear" else (("default", "tall", "wide", "steep") if fam == "rq" else ("default", "tall", "wide"))):
-                        if mins != "default" and (pname in ("zero", "pat8") or K == 1 and tier == "quick"):
+                        if mins != "default" and (pname in ("zero", "pat8", "spike") or K == 1 and tier == "quick"):
                             continue
                         yield {"family": fam, "bins": K, "box": boxname if tb is None else "unit", "tb": tb, "pattern": pname, "seed": seed, "dtype": dname, "inverse": inverse, "per_bin": 8 if tier == "quick" else 24, "mins": mins}
 
